@@ -162,7 +162,8 @@ impl C03 {
   }
 }
 
-pub enum Expect { Elems(Vec<usize>, Option<(usize, usize)>, bool), MustError(&'static str), Unjudged }
+pub enum Expect { Elems(Vec<usize>, Option<(usize, usize)>, bool), MustError(&'static str), /// a valid index that selects nothing: an error or a result without elements, never some element
+  Empty, Unjudged }
 
 /// reference model: which (row-major positions of x) are read, the documented result shape (None = any vector orientation), scalar?
 pub fn reference(shape: (usize, usize), a: &Ix, b: &Option<Ix>) -> Expect {
@@ -171,7 +172,7 @@ pub fn reference(shape: (usize, usize), a: &Ix, b: &Option<Ix>) -> Expect {
     None => {
       match a.select(r * c) {
         Sel::Ok(lin) => {
-          if lin.is_empty() { return Expect::Unjudged; }
+          if lin.is_empty() { return Expect::Empty; }
           // linear, column-major: position p -> (p % r, p / r)
           let pos: Vec<usize> = lin.iter().map(|p| (p % r) * c + (p / r)).collect();
           let scalar = matches!(a, Ix::S(_));
@@ -190,7 +191,7 @@ pub fn reference(shape: (usize, usize), a: &Ix, b: &Option<Ix>) -> Expect {
         (Sel::OutOfRange, _) | (_, Sel::OutOfRange) => Expect::MustError("out-of-range-accepted"),
         (Sel::BadMask, _) | (_, Sel::BadMask) => Expect::MustError("mask-length-accepted"),
         (Sel::Ok(ri), Sel::Ok(ci)) => {
-          if ri.is_empty() || ci.is_empty() { return Expect::Unjudged; }
+          if ri.is_empty() || ci.is_empty() { return Expect::Empty; }
           let mut pos = vec![];
           for i in ri { for j in ci { pos.push(i * c + j); } }
           let scalar = matches!(a, Ix::S(_)) && matches!(b, Ix::S(_));
@@ -317,6 +318,15 @@ impl UnitRunner for C03 {
           if let Outcome::Panic(m) = &o { out.fail(format!("C03|panic|{}", locus), case, m.clone()); continue; }
           match reference(shape, a, b) {
             Expect::Unjudged => { out.count("unjudged(empty selection / degenerate range)"); }
+            Expect::Empty => {
+              out.nontrivial += 1;
+              out.count("selects_nothing");
+              if let Outcome::Value(c) = &o {
+                let n_elems = match c.as_matrix() { Some((r, cc, _)) => r * cc, None => 1 };
+                if n_elems != 0 { out.fail(format!("C03|empty-selection-returns-elements|{}", locus), case, format!("the index selects no element of a {}x{} matrix, got {}", shape.0, shape.1, c.short())); }
+                else { out.count("selects_nothing:empty_result"); }
+              } else { out.count("selects_nothing:rejected"); }
+            }
             Expect::MustError(cls) => {
               out.nontrivial += 1;
               out.count("addresses_no_element");
